@@ -288,6 +288,30 @@ pub fn make(prop: &str, tier: Tier, seed: u64) -> Scenario {
             }
             s
         }
+        "C14" if r.chance(1, 8) => {
+            // bucket exhaustion: a tiny hash table filled until the page allocator gives up; no
+            // injected fault — the failing commit must be reported, poison the handle and stay atomic
+            let mut p = Profile::default();
+            p.small_ht = true; p.steps = (3, 8); p.pool = (250, 700); p.batch = (60, 300); p.big_pct = 1; p.witness_pct = 0;
+            p.w_commit = 80; p.w_reopen = 6; p.w_rollback = 6; p.w_overlay = 8; p.session_proves = 0; p.session_reads = 0;
+            let mut c = checks_all();
+            c.witness = false; c.multiproof = false; c.proofs = false; c.reopen_equal = false;
+            let mut s = gen_history(prop, seed, p, c);
+            s.opts.buckets = *r.pick(&[64u32, 64, 70, 80]);
+            // uniformly random keys: every one of the 64 first-level pages gets content
+            let mut stamp = 3_000_000u32;
+            let mut steps = Vec::new();
+            for _ in 0..r.range(3, 6) {
+                let mut ks: Vec<Key> = (0..r.range(80, 220)).map(|_| r.bytes32()).collect();
+                ks.sort(); ks.dedup();
+                let items: Vec<(K, Act)> = ks.into_iter().map(|k| { stamp += 1; (K(k), Act::Write(Some(VSpec { len: *r.pick(&[4u32, 30, 200]), stamp }))) }).collect();
+                steps.push(Step::Commit { batch: Batch { items, ..Default::default() }, nonblocking: false });
+                if r.chance(1, 4) { steps.push(Step::Rollback { n: 1 }); }
+            }
+            s.steps = steps;
+            s.probes.clear();
+            s
+        }
         "C03" | "C04" | "C14" => {
             // a short history that builds state (large values, deletions that free pages, a hash
             // table with tombstones, rollback segments), then one target step whose I/O events get
